@@ -74,7 +74,7 @@ def classify(spec, r: R):
         r.cls('multi-source')
 
 
-def check_realisation(case, r: R):
+def _check_realisation_one(case, r: R):
     spec = case['circuit']
     comps, caps, inds, vsrc, isrc = dy.parts(spec)
     if not caps and not inds:
@@ -201,6 +201,22 @@ def check_realisation(case, r: R):
 @st.composite
 def realisation_case(draw):
     return {'circuit': draw(dy.any_dynamic())}
+
+
+def check_realisation(case, r: R):
+    """the case itself, then - in the same process - its value-perturbed twin (same names, topology, listing order):
+    a result that is cached or keyed by structure instead of by value shows up on the second evaluation"""
+    _check_realisation_one(case, r)
+    if r.failures:
+        return
+    first_rejected, r.rejected = r.rejected, None
+    twin = dict(case)
+    twin['circuit'] = gen.twin_circuit(case['circuit'])
+    sub = R()
+    _check_realisation_one(twin, sub)
+    for s_, d_ in sub.failures:
+        r.fail('twin:' + s_, d_)
+    r.rejected = first_rejected
 
 
 TESTS = [
